@@ -984,6 +984,8 @@ def c09_forms():
             ("block", block([I(8), bin_("+", N("gx"), I(9))])), ("yield", y(bin_("+", N("gx"), I(1)))), ("fnlit", fn([], I(1))),
             ("call", call("id", N("gx"))), ("list", lst([N("gx"), bin_("+", N("gx"), I(1))])), ("index", ix1(lst([I(1), I(2)]), bin_("-", N("gx"), N("gx")))),
             ("if-in-if", iff(bin_("<", N("gx"), I(999)), iff(bin_("<", N("gx"), I(998)), I(1)))),
+            ("if-call", iff(bin_("<", N("gx"), I(999)), call("id", N("gx")))), ("if-call-false", iff(bin_(">", N("gx"), I(999)), call("id", N("gx")))),
+            ("if-block-call-first", iff(bin_("<", N("gx"), I(999)), block([call("id", N("gx")), assign("t", I(2))]))),
             ("ifelse-call-assign-false", ife(bin_(">", N("gx"), I(999)), call("id", N("gx")), assign("t", I(2)))), ("ifelse-call-assign-true", ife(bin_("<", N("gx"), I(999)), call("id", N("gx")), assign("t", I(2)))),
             ("ifelse-op-name-false", ife(bin_(">", N("gx"), I(999)), bin_("*", N("gx"), I(2)), N("gx"))), ("ifelse-index-loop-false", ife(bin_(">", N("gx"), I(999)), ix1(lst([I(1)]), I(0)), fr(["w"], [call("fromto", I(0), I(2))], N("w")))),
             ("ifelse-assign-index-false", ife(bin_(">", N("gx"), I(999)), assign("t", I(2)), ix1(lst([I(1), I(2)]), I(1)))), ("ifelse-name-call-true", ife(bin_("<", N("gx"), I(999)), N("gx"), call("id", I(3)))),
